@@ -469,7 +469,9 @@ public:
             const auto array   = this->array().template cast<double>();
             const auto count   = static_cast<double>(size());
             const auto average = array.mean();
-            variance           = array.square().sum() / count - average * average;
+            // NB: two-pass formula as the difference of the two moments cancels for almost constant values
+            //     (slightly negative variance, thus NaN standard deviation)!
+            variance           = (array - average).square().sum() / count;
         }
         return variance;
     }
